@@ -16,7 +16,8 @@ RULE = ("Hypothesis draws dense arrays (d 2..5, mode sizes 1..6) of three kinds 
         "2^q x 2^q matrices (q 1..5) for the matrix variant; m x n matrices with prescribed spectra for matrix_skeleton / matrix_svd with "
         "rel in {F,T}, give_to in {m,l,r}, hermitian on symmetric input. Oracle = LAPACK SVD of the input unfoldings / matrix. "
         "Non-trivial = a rank was actually cut, or exact-rank recovery with a rank >= 2; distinct by SHA-1 of the case."
-        " The rank cap reaches the routines as Python int / float or as np.int64 / np.int32 / np.intp / np.float64 / np.float32 / np.float16 / 0-d array of the same value.")
+        " The rank cap reaches the routines as Python int / float or as np.int64 / np.int32 / np.intp / np.float64 / np.float32 / np.float16 / 0-d array of the same value."
+        " The array itself is handed over in C order, Fortran order or as a strided view (same values).")
 TOLERANCES = ("floor_svd = 64 eps R d ||A||; skeleton: | ||A-UV|| - tail(q) | <= 64 eps (m+n) s0; matrix_svd (eigh route): size equality only "
               "for e >= 1e-6 s0, error <= e + 8 sqrt(eps min(m,n)) s0; 1e-6 two-sided slack at exact thresholds")
 ASSUMPTIONS = ["d >= 2 for svd (q >= 1 for svd_matrix)", "e > 0, r >= 1", "LAPACK SVD is the reference spectrum",
@@ -69,7 +70,15 @@ def as_table(A, store, ctx):
     """What the library is given: an integer-valued array kept in an integer array when the case asks for it (same values)."""
     if store and store != "float64" and A.size and np.array_equal(A, np.round(A)) and np.abs(A).max() < 2 ** 31:
         ctx.label("stored_as:" + store)
-        return A.astype(store)
+        A = A.astype(store)
+    # memory layout of the caller's array (the values are the same): C order, Fortran order, a strided view; chosen from the data itself
+    lay = int(abs(float(A.flat[0])) * 8191 + A.size) % 4 if A.size else 0
+    if lay == 1:
+        ctx.label("layout:F")
+        return np.asfortranarray(A)
+    if lay == 2 and A.ndim >= 1:
+        ctx.label("layout:strided")
+        return np.repeat(A, 2, axis=-1)[..., ::2]
     return A
 
 
